@@ -434,14 +434,14 @@ func (n *Net) recFor(key string) *DialRecord {
 
 type Conn struct {
 	handedOut bool
-	n      *Net
-	id     string // "<from>><addr>#n/d" (dialer side) or ".../a" (acceptor side)
-	dialer bool
-	peer   *Conn
-	local  *net.TCPAddr
-	remote *net.TCPAddr
-	cond   *sync.Cond
-	cap    int // bound on bytes this endpoint may have outstanding toward peer
+	n         *Net
+	id        string // "<from>><addr>#n/d" (dialer side) or ".../a" (acceptor side)
+	dialer    bool
+	peer      *Conn
+	local     *net.TCPAddr
+	remote    *net.TCPAddr
+	cond      *sync.Cond
+	cap       int // bound on bytes this endpoint may have outstanding toward peer
 
 	// receive side: the link peer -> this
 	recv      []byte
